@@ -65,6 +65,26 @@ def _follow_xpath(root: Any, xpath: str) -> Any:
     return node
 
 
+def _binary_queries(e, tree, paths, nodes, fail):
+    check = e.bool("check_ancestor")
+    for p, n in zip(paths, nodes):
+        for q, m in zip(paths, nodes):
+            is_anc = len(q) < len(p) and p[: len(q)] == q
+            if tree.is_ancestor(n, m) is not is_anc:
+                fail("is_ancestor-wrong", node=str(p), ancestor=str(q))
+            try:
+                d = tree.get_depth(n, relative_to=m, check_ancestor=check)
+                raised = None
+            except ValueError:
+                d, raised = None, "ValueError"
+            chk = True if check else False
+            if is_anc:
+                if raised or d != len(p) - len(q):
+                    fail("relative-depth-wrong", node=str(p), relative_to=str(q), got=d, raised=raised, check_ancestor=chk)
+            elif chk and raised != "ValueError":
+                fail("relative-depth-to-non-ancestor-does-not-raise-ValueError", node=str(p), relative_to=str(q), got=d)
+
+
 def make_harness(bases):
     def harness(e):
         from pyoak.tree import Tree
@@ -98,7 +118,7 @@ def make_harness(bases):
         nodes = [node_at(root, p) for p in paths]
         parent_of = {tuple(p): tuple(p[:-1]) for p in paths if p}
         scenario: dict[str, Any] = {"tree": describe(recipe), "twins": twins, "prehistory": pre}
-        mode = e.pick(["unary", "binary", "foreign"], "query_kind")
+        mode = e.pick(["unary", "binary", "binary-then-unary", "foreign"], "query_kind")
         scenario["query_kind"] = mode
 
         def fail(sig, **kw):
@@ -107,7 +127,9 @@ def make_harness(bases):
 
         if root is not tree.root:
             fail("root-property")
-        if mode == "unary":
+        if mode in ("binary", "binary-then-unary"):
+            _binary_queries(e, tree, paths, nodes, fail)
+        if mode in ("unary", "binary-then-unary"):
             exact = e.bool("exact_type")
             anc = e.pick(ANC_CLASSES, "ancestor_classes")
             classes = tuple(CLASSES[c] for c in anc)
@@ -148,23 +170,7 @@ def make_harness(bases):
                     fail("two-nodes-share-an-xpath", xpath=xp)
                 xpaths.add(xp)
         elif mode == "binary":
-            check = e.bool("check_ancestor")
-            for p, n in zip(paths, nodes):
-                for q, m in zip(paths, nodes):
-                    is_anc = len(q) < len(p) and p[: len(q)] == q
-                    if tree.is_ancestor(n, m) is not is_anc:
-                        fail("is_ancestor-wrong", node=str(p), ancestor=str(q))
-                    try:
-                        d = tree.get_depth(n, relative_to=m, check_ancestor=check)
-                        raised = None
-                    except ValueError:
-                        d, raised = None, "ValueError"
-                    chk = True if check else False
-                    if is_anc:
-                        if raised or d != len(p) - len(q):
-                            fail("relative-depth-wrong", node=str(p), relative_to=str(q), got=d, raised=raised, check_ancestor=chk)
-                    elif chk and raised != "ValueError":
-                        fail("relative-depth-to-non-ancestor-does-not-raise-ValueError", node=str(p), relative_to=str(q), got=d)
+            pass
         else:
             # foreign nodes content-identical to members, created while the members are registered
             k = e.choice(len(paths), "member")
